@@ -53,6 +53,30 @@ def union_case(draw):
     return {"defs": defs, "root": "Root", "cfg": cfg, "data": data.hex(), "wrapped": wrapped, "ops": ops}
 
 
+@st.composite
+def offset_case(draw):
+    """Unions whose members sit at explicit offsets (public API: add_field(name, type, offset=N)), inside the extent."""
+    pool = [S("uint8"), S("uint16"), S("uint32"), S("uint64"), S("int24"), {"k": "a", "t": S("char"), "len": ["fixed", 4]}, {"k": "a", "t": S("uint16"), "len": ["fixed", 2]},
+            {"k": "st", "kind": "struct", "name": None, "fields": [{"name": "x", "t": S("uint8"), "bits": None}, {"name": "y", "t": S("uint16"), "bits": None}]}]
+    cfg = draw(gens.config(align=False))
+    n = draw(st.integers(2, 4))
+    types = [draw(st.sampled_from(pool)) for _ in range(n)]
+    sem0 = Sem([], cfg)
+    size = max(sem0.size(t) for t in types)
+    fields = []
+    for i, t in enumerate(types):
+        room = size - sem0.size(t)
+        off = draw(st.integers(0, room)) if room and draw(st.booleans()) else 0
+        f = {"name": f"m{i}", "t": t, "bits": None}
+        if off:
+            f["offset"] = off
+        fields.append(f)
+    defs = [{"k": "structdef", "n": "Root", "t": {"k": "st", "kind": "union", "name": None, "fields": fields}}]
+    data = draw(st.binary(min_size=size, max_size=size))
+    ops = [[draw(st.sampled_from(["member", "member", "nested", "kw", "reparse"])), draw(st.integers(0, 1000)), draw(st.binary(min_size=40, max_size=40)).hex()] for _ in range(draw(st.integers(2, 8)))]
+    return {"defs": defs, "root": "Root", "cfg": cfg, "data": data.hex(), "wrapped": False, "ops": ops, "api_offsets": True}
+
+
 def _leaf_paths(sem, t, prefix=(), depth=0):
     """(attribute path, model path, field) for assignable leaves below a struct member (no unions crossed)."""
     t = sem.res(t)
@@ -85,10 +109,14 @@ class Model:
         return bytes(self.sem.encode(t, v))
 
 
+def _off(f):
+    return f.get("offset") or 0
+
+
 def _decode_members(sem, u, buf):
     out = {}
     for i, f in enumerate(u["fields"]):
-        v, _ = sem.decode(f["t"], bytes(buf), 0)
+        v, _ = sem.decode(f["t"], bytes(buf), _off(f))
         out[fkey(f, i)] = v
     return out
 
@@ -143,7 +171,7 @@ def _run_model(case, m, mode, ctx=None):
         mask = bytearray(usize)
         for f in u["fields"]:
             try:
-                sem.decode(f["t"], bytes(buf), 0, mask)
+                sem.decode(f["t"], bytes(buf), _off(f), mask)
             except (refsem.NonCanonical, refsem.Short):
                 mask = None
                 break
@@ -193,7 +221,7 @@ def _run_model(case, m, mode, ctx=None):
             lu = obj = newu
             buf = bytearray(usize)
             b = model.enc(f["t"], val)
-            buf[: len(b)] = b
+            buf[_off(f) : _off(f) + len(b)] = b
             trace.append(["kw", fkey(f, i)])
             stats["assign_members"].add(i)
         elif k == "member":
@@ -211,7 +239,7 @@ def _run_model(case, m, mode, ctx=None):
             if isinstance(r, Err):
                 raise Violation("operation-raised", f"step {step} u.{f['name']} = {val!r}: {r}; history {trace}: {desc()}", r.where)
             b = model.enc(f["t"], val)
-            buf[: len(b)] = b
+            buf[_off(f) : _off(f) + len(b)] = b
             trace.append(["member", fkey(f, i), repr(val)[:60]])
             stats["assign_members"].add(i)
         elif k == "nested":
@@ -226,7 +254,7 @@ def _run_model(case, m, mode, ctx=None):
             i, f, path, leaf = cands[sel % len(cands)]
             ft = sem.res(f["t"])
             try:
-                sval, _ = sem.decode(ft, bytes(buf), 0)
+                sval, _ = sem.decode(ft, bytes(buf), _off(f))
             except refsem.NonCanonical:
                 continue
             if leaf.get("bits"):
@@ -260,7 +288,7 @@ def _run_model(case, m, mode, ctx=None):
             if isinstance(r, Err):
                 raise Violation("operation-raised", f"step {step} u.{'.'.join(((f['name'],) if f.get('name') else ()) + path)} = {nv!r}: {r}; history {trace}: {desc()}", r.where)
             b = model.enc(ft, sval)
-            buf[: len(b)] = b
+            buf[_off(f) : _off(f) + len(b)] = b
             trace.append(["nested", ".".join(((f["name"],) if f.get("name") else ("<anon>",)) + path), repr(nv)[:40]])
             stats["assign_members"].add(i)
             stats["nested"] += 1
@@ -308,7 +336,10 @@ def run_case(case, ctx):
 
 def stages(tier):
     q = tier == "quick"
-    return [HypStage("histories", union_case, examples=600 if q else 4000, shards=10 if q else 16)]
+    return [
+        HypStage("histories", union_case, examples=600 if q else 4000, shards=10 if q else 16),
+        HypStage("explicit-offsets", offset_case, examples=400 if q else 3000, shards=2 if q else 4),
+    ]
 
 
 def _kf_union_writer(case, v):
